@@ -641,6 +641,8 @@ static int run_cmd(struct ctx *c, char **t, int nt) {
     else if (!strcmp(kind, "cafter")) fprintf(f, "k=v #%s\n", field);
     else if (!strcmp(kind, "quoted")) fprintf(f, "k=\"%s\"\n", field);
     else if (!strcmp(kind, "joined")) fprintf(f, "k=v\nk=%s\n", field);
+    else if (!strcmp(kind, "lastline")) fprintf(f, "j=1\nk=%s", field);        /* the LAST line of a file that does not end with a newline */
+    else if (!strcmp(kind, "lastcont")) fprintf(f, "k=v\n %s", field);         /* ... as a continuation line */
     else fprintf(f, "k=v\n");
     fclose(f);
     econf_file *kf = NULL, *kf2 = NULL, *m = NULL, *other = NULL; char *str = NULL; econf_ext_value *x = NULL;
@@ -668,12 +670,12 @@ static int run_cmd(struct ctx *c, char **t, int nt) {
         if (round == 1) { econf_newKeyFile(&other, '=', '#'); econf_setStringValue(other, "zz", "o", "1"); econf_err me = econf_mergeFiles(&m, kf, other); if (me) { LEV("merge", me, NULL); break; } q = m; }
         if (round == 2) { econf_err we = econf_writeFile(kf, dir, "long.out"); if (we) { LEV("writeFile", we, NULL); break; }
           char *p2; if (asprintf(&p2, "%s/long.out", dir) < 0) p2 = NULL; econf_err re = econf_readFile(&kf2, p2, "=", "#"); free(p2); if (re) { LEV("write+readFile", re, NULL); break; } q = kf2; }
-        if (!strcmp(kind, "value") || !strcmp(kind, "quoted")) {
+        if (!strcmp(kind, "value") || !strcmp(kind, "quoted") || !strcmp(kind, "lastline")) {
           snprintf(api, sizeof api, "%sgetStringValue", tag); e = econf_getStringValue(q, g, k, &str); LEV(api, e, e ? NULL : str); if (!e) free(str);
           snprintf(api, sizeof api, "%sgetExtValue.values", tag); e = econf_getExtValue(q, g, k, &x); LEV(api, e, (e || !x->values[0]) ? NULL : x->values[0]); if (!e) econf_freeExtValue(x);
         } else if (!strcmp(kind, "joined")) {
           snprintf(api, sizeof api, "%sgetStringValue", tag); e = econf_getStringValue(q, g, k, &str); LEV(api, e, e ? NULL : (strchr(str, '\n') ? strchr(str, '\n') + 1 : NULL)); if (!e) free(str);
-        } else if (!strcmp(kind, "contline")) {
+        } else if (!strcmp(kind, "contline") || !strcmp(kind, "lastcont")) {
           snprintf(api, sizeof api, "%sgetStringValue", tag); e = econf_getStringValue(q, g, k, &str); LEV(api, e, e ? NULL : (strchr(str, '\n') ? strchr(str, '\n') + 2 : NULL)); if (!e) free(str);
           snprintf(api, sizeof api, "%sgetExtValue.values", tag); e = econf_getExtValue(q, g, k, &x); LEV(api, e, (e || !x->values[0] || !x->values[1]) ? NULL : x->values[1]); if (!e) econf_freeExtValue(x);
         } else if (!strcmp(kind, "key")) {
